@@ -86,7 +86,7 @@ def tlc(module, cfg, workdir, timeout, extra=(), env=None, workers="16"):
     cmd = ["tlc", "-noGenerateSpecTE", "-workers", workers, "-metadir", meta, "-config", cfg] + list(extra) + [module]
     env = dict(env or {})
     # a small, fixed heap: with TLC's default (25% of RAM) most of the run time is the kernel faulting in fresh pages
-    env.setdefault("JAVA_TOOL_OPTIONS", "-Xmx6g -Xmn2g")
+    env.setdefault("JAVA_TOOL_OPTIONS", "-Xmx6g -Xmn2g -Xss256m")
     p, dt = run(cmd, timeout, env=env, cwd=SPEC, out=out)
     txt = open(out, errors="replace").read()
     shutil.rmtree(meta, ignore_errors=True)
@@ -272,7 +272,7 @@ def match_known(prop, check, detail):
 
 # ------------------------------------------------------------------------------------------- properties
 ECON_MC = dict(module="MC_Hub.tla", cfg="MC_Econ.cfg", timeout=900,
-               quick={"MaxLen": "9"}, thorough={"MaxLen": "14", "MaxBlocks": "3"})
+               quick={"MaxLen": "8"}, thorough={"MaxLen": "12", "MaxBlocks": "3"})
 ECON_SIM = dict(module="MC_Hub.tla", cfg="MC_EconSim.cfg", family="econ", num=(40, 600), depth=200, timeout=3000,
                 quick={"MaxLen": "40"}, thorough={"MaxLen": "70"})
 ECON2_SIM = dict(module="MC_Hub.tla", cfg="MC_Econ2Sim.cfg", family="econ", num=(40, 600), depth=200, timeout=3000,
@@ -921,7 +921,13 @@ def check_c05(prop, tier, seed, replay_file=None):
             random.Random(seed).shuffle(idx)
             idx = sorted(idx[:900])
         scripts = [c05_script(i, cases[i], cfgs) for i in idx]
-        scripts += load_static(["bulk*.ndjson", "c05*.ndjson"])
+        scripts += load_static(["bulk*.ndjson", "c05*.ndjson", "attest*.ndjson", "econ*.ndjson", "fees*.ndjson"])
+        # vote orders: conflicting claims, validators ahead / behind, powers changing (attest family), deposits and executions (econ)
+        for spec in (ATTEST_SIM, ECON_SIM):
+            sp = dict(spec)
+            sp["num"] = (40, 400)
+            s2, st2 = simulate_scripts(sp, workdir, tier, dev, seed)
+            scripts += s2
     sp = os.path.join(workdir, "scripts.ndjson")
     with open(sp, "w") as f:
         for sc in scripts:
